@@ -7,6 +7,7 @@ import (
 	"fmt"
 	"os"
 	"runtime/debug"
+	"runtime/pprof"
 
 	"verifharness/drv"
 	_ "verifharness/mon"
@@ -57,6 +58,12 @@ func worker(args []string) {
 	}
 	c := drv.NewCtx(*prop, *tier, *seed, *flavour, *shard, *nshards, *workdir)
 	c.OnlyStage, c.OnlyIndex, c.Verbose = *onlyStage, *onlyIndex, *verbose
+	if pf := os.Getenv("VERIF_CPUPROF"); pf != "" { // development aid: where does a stage spend its time
+		if f, err := os.Create(pf); err == nil {
+			pprof.StartCPUProfile(f)
+			defer pprof.StopCPUProfile()
+		}
+	}
 	m(c)
 	if err := c.Finish(); err != nil {
 		fmt.Fprintln(os.Stderr, "finish:", err)
